@@ -1,0 +1,242 @@
+//! verification-only models of `std::collections::{HashMap, HashSet}`.
+//!
+//! compiled only under `cfg(all(kani, feature = "verif-models"))`. the Kani model checker cannot
+//! symbolically execute hashbrown (SipHash, group probing, `RandomState`), so a handful of modules
+//! swap their `use std::collections::..` line for these fixed-capacity tables when they are built
+//! for verification. the tables implement the *contract* of a hash map (a finite partial function
+//! with replace-on-insert) over a fixed array, so that the repository logic built on top of the
+//! map is what gets checked. iteration order is insertion order; std's is unspecified, so no
+//! caller may depend on it.
+//!
+//! nothing in a normal build refers to this file.
+
+use allocative::Allocative;
+
+/// capacity of the table models. exceeding it is an assertion failure, never silent.
+pub const CAP: usize = 8;
+
+#[derive(Clone, Debug)]
+pub struct HashMap<K, V> {
+    slots: [Option<(K, V)>; CAP],
+    len: usize,
+}
+
+impl<K, V> Default for HashMap<K, V> {
+    fn default() -> Self {
+        Self::new()
+    }
+}
+
+impl<K, V> HashMap<K, V> {
+    pub fn new() -> Self {
+        HashMap {
+            slots: [const { None }; CAP],
+            len: 0,
+        }
+    }
+
+    /// builds a table directly from its slots (verification harnesses construct arbitrary
+    /// pre-states this way). `slots[..len]` must be occupied, the rest empty, keys distinct.
+    pub fn from_slots(slots: [Option<(K, V)>; CAP], len: usize) -> Self {
+        HashMap { slots, len }
+    }
+
+    pub fn len(&self) -> usize {
+        self.len
+    }
+
+    pub fn is_empty(&self) -> bool {
+        self.len == 0
+    }
+
+    pub fn iter(&self) -> impl Iterator<Item = (&K, &V)> + '_ {
+        self.slots
+            .iter()
+            .filter_map(|s| s.as_ref().map(|(k, v)| (k, v)))
+    }
+
+    pub fn keys(&self) -> impl Iterator<Item = &K> + '_ {
+        self.iter().map(|(k, _)| k)
+    }
+
+    pub fn values(&self) -> impl Iterator<Item = &V> + '_ {
+        self.iter().map(|(_, v)| v)
+    }
+}
+
+impl<K: PartialEq, V> HashMap<K, V> {
+    pub fn get(&self, k: &K) -> Option<&V> {
+        let mut i = 0;
+        while i < CAP {
+            if let Some((sk, sv)) = &self.slots[i] {
+                if sk == k {
+                    return Some(sv);
+                }
+            }
+            i += 1;
+        }
+        None
+    }
+
+    pub fn contains_key(&self, k: &K) -> bool {
+        self.get(k).is_some()
+    }
+
+    pub fn insert(&mut self, k: K, v: V) -> Option<V> {
+        let mut i = 0;
+        while i < CAP {
+            if let Some((sk, sv)) = &mut self.slots[i] {
+                if *sk == k {
+                    return Some(std::mem::replace(sv, v));
+                }
+            }
+            i += 1;
+        }
+        assert!(self.len < CAP, "verification table model capacity exceeded");
+        let at = self.len;
+        self.slots[at] = Some((k, v));
+        self.len += 1;
+        None
+    }
+
+    pub fn extend<I: IntoIterator<Item = (K, V)>>(&mut self, iter: I) {
+        for (k, v) in iter {
+            let _ = self.insert(k, v);
+        }
+    }
+}
+
+impl<K: PartialEq, V> FromIterator<(K, V)> for HashMap<K, V> {
+    fn from_iter<T: IntoIterator<Item = (K, V)>>(iter: T) -> Self {
+        let mut m = HashMap::new();
+        for (k, v) in iter {
+            let _ = m.insert(k, v);
+        }
+        m
+    }
+}
+
+impl<K: PartialEq, V, const N: usize> From<[(K, V); N]> for HashMap<K, V> {
+    fn from(arr: [(K, V); N]) -> Self {
+        let mut m = HashMap::new();
+        for (k, v) in arr {
+            let _ = m.insert(k, v);
+        }
+        m
+    }
+}
+
+impl<K, V> IntoIterator for HashMap<K, V> {
+    type Item = (K, V);
+    type IntoIter = std::iter::Flatten<std::array::IntoIter<Option<(K, V)>, CAP>>;
+    fn into_iter(self) -> Self::IntoIter {
+        self.slots.into_iter().flatten()
+    }
+}
+
+impl<'a, K, V> IntoIterator for &'a HashMap<K, V> {
+    type Item = (&'a K, &'a V);
+    type IntoIter = Box<dyn Iterator<Item = (&'a K, &'a V)> + 'a>;
+    fn into_iter(self) -> Self::IntoIter {
+        Box::new(self.iter())
+    }
+}
+
+impl<K: Allocative, V: Allocative> Allocative for HashMap<K, V> {
+    fn visit<'a, 'b: 'a>(&self, visitor: &'a mut allocative::Visitor<'b>) {
+        visitor.visit_simple_sized::<Self>()
+    }
+}
+
+#[derive(Clone, Debug)]
+pub struct HashSet<T> {
+    slots: [Option<T>; CAP],
+    len: usize,
+}
+
+impl<T> Default for HashSet<T> {
+    fn default() -> Self {
+        Self::new()
+    }
+}
+
+impl<T> HashSet<T> {
+    pub fn new() -> Self {
+        HashSet {
+            slots: [const { None }; CAP],
+            len: 0,
+        }
+    }
+
+    pub fn len(&self) -> usize {
+        self.len
+    }
+
+    pub fn is_empty(&self) -> bool {
+        self.len == 0
+    }
+
+    pub fn iter(&self) -> impl Iterator<Item = &T> + '_ {
+        self.slots.iter().filter_map(|s| s.as_ref())
+    }
+}
+
+impl<T: PartialEq> HashSet<T> {
+    pub fn contains(&self, t: &T) -> bool {
+        let mut i = 0;
+        while i < CAP {
+            if let Some(s) = &self.slots[i] {
+                if s == t {
+                    return true;
+                }
+            }
+            i += 1;
+        }
+        false
+    }
+
+    pub fn insert(&mut self, t: T) -> bool {
+        if self.contains(&t) {
+            return false;
+        }
+        assert!(self.len < CAP, "verification table model capacity exceeded");
+        let at = self.len;
+        self.slots[at] = Some(t);
+        self.len += 1;
+        true
+    }
+}
+
+impl<T: PartialEq> FromIterator<T> for HashSet<T> {
+    fn from_iter<I: IntoIterator<Item = T>>(iter: I) -> Self {
+        let mut s = HashSet::new();
+        for t in iter {
+            let _ = s.insert(t);
+        }
+        s
+    }
+}
+
+impl<T: PartialEq, const N: usize> From<[T; N]> for HashSet<T> {
+    fn from(arr: [T; N]) -> Self {
+        let mut s = HashSet::new();
+        for t in arr {
+            let _ = s.insert(t);
+        }
+        s
+    }
+}
+
+impl<T> IntoIterator for HashSet<T> {
+    type Item = T;
+    type IntoIter = std::iter::Flatten<std::array::IntoIter<Option<T>, CAP>>;
+    fn into_iter(self) -> Self::IntoIter {
+        self.slots.into_iter().flatten()
+    }
+}
+
+impl<T: Allocative> Allocative for HashSet<T> {
+    fn visit<'a, 'b: 'a>(&self, visitor: &'a mut allocative::Visitor<'b>) {
+        visitor.visit_simple_sized::<Self>()
+    }
+}
